@@ -547,7 +547,7 @@ def search(prop, run, failures):
     """A table-breaks disagreement that the function-level clause does not judge: render the documents of the family
     and let the page checker decide."""
     from vlib import lean
-    if not any(f['kind'] in ('correspondence', 'proof') for f in failures):
+    if not any(f['kind'] in ('correspondence', 'proof', 'extraction') for f in failures):
         return []
     found = []
     lines, metas = [], []
